@@ -256,8 +256,8 @@ def decoStep (inClass : Bool) (fl : Flags) (d : Deco) : Flags :=
     let fl :=
       if inClass then
         if endsWith last sProperty || endsWith last sPropertyCap then { fl with isProperty := true }
-        else if dn = [sClassmethod] then { fl with isClassmethod := true }
-        else if dn = [sStaticmethod] then { fl with isStaticmethod := true }
+        else if dn = [sClassmethod] || dn = [sBuiltins, sClassmethod] then { fl with isClassmethod := true }   -- since 68b2b27
+        else if dn = [sStaticmethod] || dn = [sBuiltins, sStaticmethod] then { fl with isStaticmethod := true }
         else if dn.length ≥ 2 ∧ (last = sSetter ∨ last = sDeleter) then
           { fl with funcName := joinDot (dn.drop (dn.length - 2)) }  -- `'.'.join(deco_name[-2:])`
         else fl
@@ -444,7 +444,15 @@ def execStmt (c : Ctx) (inBlock : Bool) (s : State) : Stmt → Outcome
   | .assign n v ann => .ok (handleVar c s n ann (some v) inBlock)
   | .annOnly n ann => .ok (handleVar c s n (some ann) none inBlock)
   | .attrDoc t => .ok (handleAttrDoc s t)
-  | .block _ body _ => execList c true s body            -- `get_children`: only `.body`
+  | .block k body tail =>
+    -- `get_children`: `.body`, and (since 99a6d9c) the clauses that run whenever the body completes: `orelse` and
+    -- `finalbody` of a `try`, `orelse` of a loop; the `else` branch of an `if` and the handlers stay ignored
+    match k with
+    | .try | .for =>
+      match execList c true s body with
+      | .ok s' => execList c true s' tail
+      | .assertionError => .assertionError
+    | _ => execList c true s body
   | .ifMain _ => .ok s                                    -- `visit_If`: SkipNode
   | .ifCmp g body => if isNameEqualsMain g then .ok s else execList c true s body
   | .oldStyle n w => handleOldStyle c s n w inBlock
@@ -728,10 +736,10 @@ end PySem
 `Subset.inSubset c stmts`: a name may be bound again by a `def` or a `class` (whatever it was bound to) and a
 variable may be assigned again — the last binding wins on both sides; an assignment to a name that is bound to a
 function, class or property is excluded (pydoctor keeps the definition); `name = staticmethod(name)` right in the class
-that defined `name` as a method (decorated, wrapped already, or not) is allowed, decorators of a `def` are bare
-`classmethod` / `staticmethod` / `property` (in a class only, at most one of them per `def`), identity
+that defined `name` as a method (decorated, wrapped already, or not) is allowed, decorators of a `def` are
+`classmethod` / `staticmethod` / `property`, bare or `builtins.`-qualified (in a class only, at most one of them per `def`), identity
 decorators defined in the package whose name does not end in `property`/`Property`, or non-name
-expressions; no `@x.setter` / `@x.deleter` / `@overload`; no bare annotation; `else`/`finally` parts bind nothing; an
+expressions; no `@x.setter` / `@x.deleter` / `@overload`; no bare annotation; the `else` branch of an `if` that is not taken on import and `except` handlers that run are excluded (`elseTaken`); an
 `if` guarded by a comparison of `__name__`/`'__main__'`/`None` is skipped by pydoctor exactly when it is not taken on import; a class attribute assigned a NON-literal does not
 shadow an inherited method or nested class (a literal may, since 91105ce); the external base names reachable from a class are classified
 alike by `_STD_LIB_EXCEPTIONS` and by `builtins` (both after removing a `builtins.` prefix). -/
@@ -749,7 +757,7 @@ def descs (ds : List Deco) : List Desc := ds.filterMap descOf
 def isDesc (d : Deco) : Bool := (descOf d).isSome
 
 def decoOk (inClass : Bool) : Deco → Bool
-  | .builtin _ q => inClass && !q
+  | .builtin _ _ => inClass                     -- bare or `builtins.`-qualified (recognised since 68b2b27)
   | .ident n => !Builder.endsWith n Builder.sProperty && !Builder.endsWith n Builder.sPropertyCap
       && n != Builder.sClassmethod && n != Builder.sStaticmethod
   | .unnamed => true
@@ -811,7 +819,15 @@ def checkStmt (c : Ctx) (sn : Seen) : Stmt → Option Seen
   | .annOnly _ _ => none
   | .attrDoc _ => some sn
   | .block .elseTaken _ _ => none                         -- pydoctor walks the part that does not run and not the one that does
-  | .block _ body tail => if tail.all inert then checkList c sn body else none
+  | .block .try body tail =>                              -- body, then `else:`/`finally:` — walked and executed in that order
+    match checkList c sn body with
+    | some sn' => checkList c sn' tail
+    | none => none
+  | .block .for body tail =>                              -- body, then the loop's `else:`
+    match checkList c sn body with
+    | some sn' => checkList c sn' tail
+    | none => none
+  | .block _ body _ => checkList c sn body                -- taken `if` (its `else` runs on neither side), `with`
   | .ifMain _ => some sn
   | .ifCmp g body =>
     -- pydoctor skips the body exactly when the recogniser fires; CPython exactly when the test is false on import
